@@ -122,6 +122,22 @@ fn templates() -> Vec<(&'static str, Program)> {
         print_of(call(field(var("n7"), "get"), vec![])),
     ]));
     v.push(("blobs-methods-self", Program { tops }));
+    // T5: blocks, branches, loop bodies and function bodies that consist of exactly one statement, a definition
+    let mut tops = header();
+    tops.push(top_fn("n7", vec![], RetAnn::Void, vec![def("n8", int(9))]));
+    tops.push(start_fn(vec![
+        def("n0", int(1)),
+        Stmt::Block(vec![def("n1", int(2))]),
+        print_of(var("n0")),
+        Stmt::Block(vec![Stmt::Block(vec![def("n2", add(var("n0"), int(1)))])]),
+        if_s(bin(BinOp::Gt, var("n0"), int(0)), vec![def("n3", int(3))]),
+        Stmt::Expr(Expr::If(vec![(bin(BinOp::Lt, var("n0"), int(0)), vec![def("n4", int(4))])], Some(vec![def("n5", int(5))]))),
+        Stmt::Loop(Some(bin(BinOp::Lt, var("n0"), int(0))), vec![def("n6", int(6))]),
+        Stmt::Expr(callv("n7", vec![])),
+        Stmt::Block(vec![op_assign("n0", BinOp::Add, int(10))]),
+        print_of(var("n0")),
+    ]));
+    v.push(("single-statement-scopes", Program { tops }));
     v
 }
 
@@ -334,6 +350,88 @@ pub fn run(run: &mut Run) {
     let mut st = Stats::merge_all(accs);
     st.merge(base_stats);
 
+    // one binder at a time renamed to names that mean something elsewhere (the entry point, externals, Lua and runtime
+    // names, names of other modules): a consistent renaming by the model must leave the Lua unchanged
+    let special = ["start", "main", "print", "lib", "type", "string", "table", "_G", "nil_", "arg", "x"];
+    let mut special_cases = Vec::new();
+    for (ti, (_, p)) in temps.iter().enumerate() {
+        let res = resolve(p);
+        for b in renamable(&res) {
+            for sname in special {
+                special_cases.push((ti, b, sname));
+            }
+        }
+    }
+    let accs = crate::pool::par_items(&special_cases, 32, |_| Stats::new(), |acc, _, (ti, b, sname)| {
+        let (tname, base) = &temps[*ti];
+        let res = resolve(base);
+        let base_text = print_program(base).text;
+        let base_lua = match compile_src(&base_text) {
+            Outcome::Ok(b) => b,
+            _ => return,
+        };
+        let mut names: Vec<Option<String>> = vec![None; res.binders.len()];
+        names[*b] = Some(sname.to_string());
+        let q = rename(base, &res, &names);
+        let r2 = resolve(&q);
+        let text = print_program(&q).text;
+        acc.evaluations += 1;
+        acc.nontrivial(fnv(text.as_bytes()));
+        if r2.duplicate_params || r2.duplicate_globals || r2.uses != res.uses {
+            acc.count("special-name-skipped:changes-the-binding-graph", 1);
+            return;
+        }
+        let mut files = serde_json::Map::new();
+        files.insert(MAIN.to_string(), json!(text));
+        let fail = match compile_src(&text) {
+            Outcome::Ok(bts) if bts == base_lua => None,
+            Outcome::Ok(_) => Some(("renaming-changes-lua", "renaming one binder to a name that is special elsewhere changed the emitted Lua".to_string())),
+            other => Some(("renaming-rejected", other.short())),
+        };
+        match fail {
+            None => acc.outcome("special-name:same-lua"),
+            Some((sig, detail)) => {
+                acc.outcome(sig);
+                acc.fail(Failure { sig: sig.to_string(), preds: vec![format!("template:{}", tname), format!("special-name:{}", sname)], detail: format!("template {} binder {} -> {}\n{}\n{}", tname, res.binders[*b].0, sname, text, detail), case: json!({"engine": "c09", "files": files, "base": base_text}), size: text.len() });
+            }
+        }
+    });
+    st.merge(Stats::merge_all(accs));
+
+    // the same across files: a function of an imported module under every name of the pool, called from main's start
+    {
+        let mut luas: Vec<(String, Result<(Vec<u8>, Vec<String>), String>)> = Vec::new();
+        for fname in ["helper", "begin", "start", "main", "lib", "print2", "go"] {
+            let mut files = Files::new();
+            files.insert(MAIN.to_string(), format!("use lib\nprint: fn *X -> void : external\nstart :: fn do\n    print(lib.{}(2))\n    print(lib.twice(3))\nend\n", fname));
+            files.insert("/p/lib.sy".to_string(), format!("print: fn *X -> void : external\n{} :: fn x: int -> int\n    print(x)\n    x * 2\nend\ntwice :: fn x: int -> int\n    {}({}(x))\nend\n", fname, fname, fname));
+            st.evaluations += 1;
+            let r = match compile(&files, MAIN, true) {
+                Outcome::Ok(lua) => {
+                    let run = crate::luarun::run_lua(&lua, 1_000_000);
+                    Ok((lua, run.out.into_iter().chain(std::iter::once(format!("{:?}", run.end))).collect()))
+                }
+                other => Err(other.short()),
+            };
+            luas.push((fname.to_string(), r));
+        }
+        let first = luas[0].1.clone();
+        for (fname, r) in &luas {
+            let same = match (&first, r) {
+                (Ok((a, ao)), Ok((b, bo))) => a == b && ao == bo,
+                _ => false,
+            };
+            if same && first.is_ok() {
+                st.outcome("module-function-name:same-lua");
+            } else {
+                st.outcome("module-function-name:DIFFERS");
+                let mut fm = serde_json::Map::new();
+                fm.insert(MAIN.to_string(), json!(format!("use lib\nprint: fn *X -> void : external\nstart :: fn do\n    print(lib.{}(2))\n    print(lib.twice(3))\nend\n", fname)));
+                st.fail(Failure { sig: "renaming-changes-lua".into(), preds: vec!["template:module-function".into(), format!("special-name:{}", fname)], detail: format!("the imported module's function named `{}` instead of `helper`: {:?}\nwith `helper`: {:?}", fname, r.as_ref().map(|x| &x.1), first.as_ref().map(|x| &x.1)), case: json!({"engine": "c09-module-name", "name": fname}), size: 50 });
+            }
+        }
+    }
+
     // out-of-scope uses: a read of every binder planted at every statement position
     let mut plant_cases = Vec::new();
     for (ti, (_, p)) in temps.iter().enumerate() {
@@ -439,6 +537,18 @@ pub fn run(run: &mut Run) {
 }
 
 pub fn replay(case: &serde_json::Value) -> Option<(String, String)> {
+    if case["engine"] == "c09-module-name" {
+        let run = |fname: &str| {
+            let mut files = Files::new();
+            files.insert(MAIN.to_string(), format!("use lib\nprint: fn *X -> void : external\nstart :: fn do\n    print(lib.{}(2))\n    print(lib.twice(3))\nend\n", fname));
+            files.insert("/p/lib.sy".to_string(), format!("print: fn *X -> void : external\n{} :: fn x: int -> int\n    print(x)\n    x * 2\nend\ntwice :: fn x: int -> int\n    {}({}(x))\nend\n", fname, fname, fname));
+            compile(&files, MAIN, true)
+        };
+        return match (run(case["name"].as_str()?), run("helper")) {
+            (Outcome::Ok(a), Outcome::Ok(b)) if a == b => None,
+            (a, _) => Some(("renaming-changes-lua".into(), a.short())),
+        };
+    }
     let text = case["files"][MAIN].as_str()?;
     if case["engine"] == "c09-alias" {
         let mut files = Files::new();
